@@ -18,6 +18,7 @@ INVARIANT MulDivDefaultRefused
 INVARIANT MulDivAutoThroughBase
 INVARIANT PowAutoThroughBase
 INVARIANT HigherOrderRefused
+INVARIANT OrderThroughAffineMaps
 INVARIANT LogDefiningMap
 INVARIANT LogCrossDimension
 CHECK_DEADLOCK FALSE
